@@ -179,6 +179,14 @@ def gen_case(rng, kind=None):
   X = gen_points(rng, n, dim, multitask)
   ncomp = 1 if kind == "gp" else rng.randint(2, 3)
   comps = [gen_component(rng, X, dim, d_phys, multitask) for _ in range(ncomp)]
+  if kind == "sum" and rng.random() < 0.4:
+    # components sharing one kernel (type and hyperparameters, mean) but NOT their noise / nugget / values
+    import copy as _copy
+    for c in comps[1:]:
+      c["cov"] = _copy.deepcopy(comps[0]["cov"])
+      c["mean"] = _copy.deepcopy(comps[0]["mean"])
+      if c["tikhonov"] == comps[0]["tikhonov"] and c["noise"] == comps[0]["noise"]:
+        c["noise"] = [v * 7.0 + 1e-3 for v in c["noise"]]
   lies = []
   for _ in range(rng.choice([0, 0, 1, 1, 2, 3])):
     k = rng.choice([1, 1, 2])
